@@ -126,7 +126,7 @@ def _row_conn(ctx, rows=1):
         if st.kind != "select":
             return []
         si = Q.select_info(st.node)
-        cols = [Q.expr_text(c) for c, al in si.columns]
+        cols = Q.select_cols(si)
         if cols[:2] == ["id", "seqid"]:
             out = []
             for _ in range(rows):
